@@ -135,6 +135,10 @@ def execute(wd, sc):
                       "oracle": "A", "detail": {"rmse": rmse, "V": vv.tolist(), "C": cc.tolist(), "N": N.tolist(),
                                                 "variance": var, "budget": s * rmse ** 2}})
     rec = M.run(wd, sc, cap=60000)
+    if rec.get("warmup_bound"):
+        wd.probes["c06.warmup_bound_hit"] += 1
+        return {"violations": [], "errors": [{"kind": "bound", "msg": rec["warmup_bound"]}], "info": {}, "key": None,
+                "nontrivial": False}
     if rec["harness"]:
         wd.probes["c06.bound_hit"] += 1
         # L: the cap is 60000 samples; allocations seen so far tell whether it was a legitimate demand
@@ -165,7 +169,7 @@ def execute(wd, sc):
     allocs = [c for c in control if c[0] == "alloc"]
     if allocs:
         wd.probes["c06.alloc_calls"] += 1
-    for (_, rmse, vl, cl, ns) in allocs:
+    for (_, rmse, vl, cl, ns) in ([] if sc.get("alloc_mode") == "gate_boundary" else allocs):  # scripted allocations are not the library's
         vl, cl, ns = np.array(vl), np.array(cl), np.array(ns, dtype=float)
         if np.any(vl == 0):
             wd.probes["c06.zero_variance_in_alloc"] += 1
